@@ -34,8 +34,11 @@ SHAPES = {
     "comb9": ([(0, 1), (1, 2), (2, 3), (3, 4), (1, 5), (2, 6), (3, 7), (4, 8)], 9, []),
     "lin9mid": ([(i, i + 1) for i in range(8)], 9, [3, 4]),
     "ring6": ([(i, (i + 1) % 6) for i in range(6)], 6, []),
+    # growth starts from a residue in the middle (-start): the placed residues are not a prefix of the node order
+    "lin7start3": ([(i, i + 1) for i in range(6)], 7, []),
 }
-QUICK = ["lin7", "br7", "lin8sup", "lin9mid"]
+START = {"lin7start3": 3}
+QUICK = ["lin7", "br7", "lin8sup", "lin9mid", "lin7start3"]
 TOP = """[ defaults ]
 1 2 no 1.0 1.0
 [ atomtypes ]
@@ -106,8 +109,10 @@ def setup():
             out = orig(self, mol_idx, node_keys)
             st = STATE.get("cur")
             if st is not None:
+                # the shadow follows what the engine actually holds after the call, not what was asked for
                 for k in node_keys:
-                    st["shadow"].pop((mol_idx, k), None)
+                    if (mol_idx, k) in st["shadow"] and not np.all(np.isfinite(self.get_point(mol_idx, k))):
+                        st["shadow"].pop((mol_idx, k), None)
             return out
         return remove_positions
 
@@ -279,7 +284,7 @@ def one_walk(res, shape, nrew, start_fail, sched, workdir):
     STATE["cur"] = st
     err = None
     try:
-        b = BuildSystem(topo, density=None, start_dict={i: None for i in range(len(topo.molecules))},
+        b = BuildSystem(topo, density=None, start_dict={i: START.get(shape) for i in range(len(topo.molecules))},
                         box=np.array([14.0, 14.0, 14.0]), maxiter=2, nrewind=nrew, step_fudge=1.0, max_force=5e4)
         b.run_system(topo.molecules)
     except C16.InvariantBroken as e:
